@@ -153,6 +153,9 @@ func main() {
 			parts = append(parts, part{Kind: "tot", Arch: arch, Sub: b, N: c.N(1, 12), Of: nBlocks})
 		}
 	}
+	for arch := 0; arch < 2; arch++ {
+		parts = append(parts, part{Kind: "mix", Arch: arch, N: c.N(3, 30)})
+	}
 	const corpusGroups = 8
 	for g := 0; g < corpusGroups; g++ {
 		parts = append(parts, part{Kind: "corpus", Sub: g, Of: corpusGroups})
@@ -292,7 +295,7 @@ func main() {
 		MinNontrivial: 20000,
 		MinCounters: map[string]int64{
 			"rt_rows": 1500, "rt_decodes": 60000, "tot_inputs": 150000, "tot_outcome_inst": 10000, "tot_outcome_error": 10000,
-			"corpus_kernels": 120, "corpus_bytes_consumed": 200000, "suffix_checks": 50000, "instance_checks": 100000,
+			"corpus_kernels": 120, "corpus_bytes_consumed": 200000, "suffix_checks": 50000, "instance_checks": 100000, "sequence_checks": 100000, "mix_sequence_checks": 20000,
 		},
 	})
 }
